@@ -41,7 +41,7 @@ def make_tree(rnd, profile, modes=None):
         ab = ('e', 'html', {}, [('e', 'head', {}, []), ('e', 'body', {}, body)])
         mode = rnd.choice(['api', 'api', 'html.parser', 'lxml', 'html5lib', 'xml', 'frag', 'multi'])
         if profile == 'contains':
-            mode = rnd.choice(['api', 'api', 'html.parser', 'html.parser', 'lxml', 'html5lib', 'xml', 'frag'])
+            mode = rnd.choice(['api', 'api', 'html.parser', 'html.parser', 'lxml', 'html5lib', 'xml', 'frag', 'multi', 'bodyfrag', 'bodyfrag'])
         if profile == 'odd':
             mode = rnd.choice(['api', 'apixml', 'frag'])
     elif profile == 'forms':
@@ -76,6 +76,13 @@ def make_tree(rnd, profile, modes=None):
             top = gen_trees.build_api([ab], xml=True)
         elif mode == 'frag':
             top = gen_trees.build_api([ab[3][1][3][0]] if ab[3][1][3] and ab[3][1][3][0][0] == 'e' else [ab], detached=True)
+        elif mode == 'bodyfrag':
+            # a fragment: the children of <body> directly below the document object (several top-level elements)
+            kids = [k for k in ab[3][1][3]]
+            if rnd.random() < 0.5:
+                kids = [('e', 'p', {'id': 'intro'}, [('t', 'hello')])] + kids
+            top = gen_trees.build_api(kids) if rnd.random() < 0.5 else \
+                gen_trees.parse_with(''.join(gen_trees.to_markup(k) for k in kids), 'html.parser')
         elif mode == 'multi':
             extra = [tg.text_node(), tg.generic(2), ('t', rnd.choice(['', ' ', 'x']))]
             rnd.shuffle(extra)
@@ -158,5 +165,20 @@ def build(rnd, profile, n_trees, sels_per_tree, feats=None, depth=2, ast=True, l
                 ops = [('select', (), 0)] + [('match', sc.path_of[id(e)]) for e in sc.elements] if all_match else std_ops(rnd, sc, light)
                 sc.add(s, ops, namespaces=nsmap)
                 sc.meta[s] = a
+        if ast and sels_per_tree and (profile == 'contains' or 'contains' in (feats or ())):
+            # text that lives inside an embedded document, asked of every element: only the elements of that inner document see it
+            import bs4 as _bs4
+            inner_texts = []
+            for fr in top.find_all('iframe')[:3]:
+                ts = [str(t_).strip() for t_ in fr.descendants if isinstance(t_, _bs4.NavigableString) and type(t_) is _bs4.NavigableString and str(t_).strip()]
+                if ts:
+                    inner_texts.append(rnd.choice(ts)[:12])
+            for txt in inner_texts[:2]:
+                for own in (False, True):
+                    a = [[{'ids': [], 'classes': [], 'attrs': [], 'pseudos': [('contains', own, [txt])]}]]
+                    s = gen_selectors.show_list(a)
+                    ops = [('select', (), 0)] + [('match', sc.path_of[id(e)]) for e in sc.elements] if all_match else std_ops(rnd, sc, light)
+                    sc.add(s, ops, namespaces=nsmap)
+                    sc.meta[s] = a
         out.append(sc)
     return out
